@@ -1356,7 +1356,13 @@ def oracle_join(h):
                     away_despawned.add(binds[e["h"]])
         if extra:
             full = [u for u in ps if u not in hs]
-            if who == "returning client" and all(u in away_despawned for u in full):
+            own = set(binds_.get(e["h"]) for e in h.events if e["ev"] == "away_despawn" and e["peer"] == p)
+            if who == "returning client" and all(u in own for u in full):
+                # D22 (despawns): the delete leaves one frame after RequestInitialSync; the snapshot brings the entity back on
+                # the returning client, the delete then removes it everywhere else
+                fails.append(("C03", "%s %d despawned an entity while its link was down: the snapshot brought it back on this client only" % (who, p),
+                              {"uuids": extra[:6]}))
+            elif who == "returning client" and all(u in away_despawned for u in full):
                 fails.append(("C03", "%s %d still holds synchronized entities that were despawned while it was away" % (who, p), {"uuids": extra[:6]}))
             else:
                 fails.append(("C03", "%s %d holds synchronized entities the host does not (any more)" % (who, p), {"uuids": extra[:6]}))
@@ -1390,7 +1396,7 @@ def oracle_join(h):
                 elif who == "returning client" and (p, u) in away_linked:
                     # D22: a link set while away is announced when the client is Connected again, one frame after its
                     # RequestInitialSync: the snapshot, built from the host's old link, and the announcement cross
-                    fails.append(("C03", "%s %d re-parented while its link was down: after the join its link and the host's have crossed" % (who, p),
+                    fails.append(("C03", "%s %d re-parented an entity while its link was down: after the join its link and the host's have crossed" % (who, p),
                                   {"uuid": u[:8], "host": a["parent"], "peer": b["parent"]}))
                 else:
                     fails.append(("C03", "%s %d has a different parent link than the host" % (who, p), {"uuid": u[:8], "host": a["parent"], "peer": b["parent"]}))
